@@ -177,6 +177,10 @@ def cell_lines(cid, ents, sol, use, phases, extra, neg, rel=None):
     `neg` collects negative reactant amounts seen while reading"""
     L = ["cell " + cid]
     scale_mu = 0.0
+    for (kw, n), e in ents.items():
+        if n in set(use.values()) | ({sol[1]} if sol[0] == "solution" else set()):
+            if re.search(r"\b(nan|inf|-nan|-inf)\b", json.dumps(e), re.I):
+                raise Missing("non-finite number in %s %d (no completed calculation)" % (kw, n))
 
     def need(kw, n):
         e = ents.get((kw, n))
@@ -629,7 +633,8 @@ def judge_drive(ctx, h, res, pm):
             try:
                 La, mu_a = cell_lines("a", after, ("solution", -2), use2, phases, extra, neg)
             except Missing as e:
-                out["problems"].append(("drive-missing", "step %d after: %s" % (k, e), 1))
+                out["errors"] = 1                      # NaN/inf state or entity not saved: not a completed calculation
+                out["nonfinite"] = str(e)
                 break
             L += La
             L.append("judgestep b a %d %d %s %r %s" % (1 if inc else 0, k, TOL, max(mu_b, mu_a), FLOOR))
@@ -647,6 +652,11 @@ def judge_drive(ctx, h, res, pm):
             out["problems"].append(("assemble", "step %d: step() returned %d, model MASS_BALANCE=%s" % (k, rc_step, mbal), 1))
         if rc_step == 3:
             out["massbalance"] += 1
+            if "kinetics" not in use2:
+                # without KINETICS a MASS_BALANCE return of step() ends the real run with "ERROR: Negative concentration":
+                # not a calculation that completes without error
+                out["errors"] = 1
+                break
         else:
             G = next((l for l in lines if l.startswith("G")), "G")
             gross = {unhx(p.split(":")[0]): float(frac(p.split(":")[1])) for p in G.split(" ")[1:]}
